@@ -622,6 +622,12 @@ def run(tier: str, seed: int, st: core.ProofStatus) -> core.Result:
         for lang in langs:
             req, others = model_request(case, lang)
             per_lang[lang] = (drv.call(req), others)
+        m0 = list(per_lang.values())[0][0]
+        ext_of = {"python": ".py", "typescript": ".ts", "rust": ".rs"}
+        if lt["langs"] and not m0["broken"]:
+            # a limit is validated when a file of that language is linted: languages whose files are all ignored do not count
+            alive = {lang: mm for lang, mm in per_lang.items() if any(f.endswith(ext_of[lang]) and f not in m0["ignoreInEffect"] for f in lt["files"])}
+            per_lang = alive or per_lang
         models.append(per_lang)
         expect = {}
         for tag in ("new", "old"):
@@ -663,8 +669,16 @@ def run(tier: str, seed: int, st: core.ProofStatus) -> core.Result:
         if im["errors"]:
             res.disagreements.append(core.Disagreement(case=show, impl=im["errors"], model=None, spec=None, property_fails=True, note=im["errors"][0][:400]))
             continue
-        new_exit2 = any(m["new"]["outcome"] == "exit2" for m, _ in per_lang.values())
+        m0 = list(per_lang.values())[0][0]
+        new_exit2 = any(m["new"]["outcome"] == "exit2" for m, _ in per_lang.values())      # per_lang holds the live languages only (see above)
         old_exit2 = any(m["old"]["outcome"] == "exit2" for m, _ in per_lang.values())
+        if new_exit2 and not m0["broken"] and set(lt["files"]) <= set(m0["ignoreInEffect"]):
+            # an invalid limit is noticed when a file is linted; with every file of the run ignored nothing is linted at all
+            res.bump("model_outcome", "invalid-limit-but-all-files-ignored")
+            if im["exit"] not in (0, 2) or im["got"]:
+                res.disagreements.append(core.Disagreement(case=show, impl={"exit": im["exit"], "violations": im["got"]}, model="exit 2, or exit 0 without findings (all files ignored)",
+                                                           spec=None, property_fails=True, note=f"{case['linter']}: all files ignored, CLI exit {im['exit']}"))
+            continue
         res.bump("model_outcome", "exit2" if new_exit2 else "run")
 
         def matches(exit2, tag):
